@@ -1,4 +1,4 @@
-From Gv Require Import C08.Model C08.Spec.
+From Gv Require Import lib.Bytes C08.Model C08.Spec C08.ModelPaths C08.SpecPaths.
 From Coq Require Import NArith ZArith.
 Require Import ExtrOcamlBasic.
 Extraction Language OCaml.
@@ -6,4 +6,6 @@ Extraction Language OCaml.
 Extraction "model.ml" organize organize_in_waves process_fetch_tree order_sequence
   respects_deps_b exactly_once_b unique_ids_b acyclic_b run_lr run_rl run_respects_b
   tree_fetches tree_ids respects_member_deps_b members_once_b plain_b create_multi_fetch
+  add_missing completed declared pipeline eligible provides writes_above_b reads_b stage_reads_b
+  segments_ok_b covers_b
   N.of_nat Z.of_nat.
